@@ -6,7 +6,7 @@ import ast
 import itertools
 from fractions import Fraction
 
-from engine.core import AnalysisError, Repo, kwarg_of, norm
+from engine.core import AnalysisError, Repo, kwarg_of, norm, walk_no_nested
 from engine.domains import Mono
 from engine.flow import enum_paths, path_calls, path_facts
 from engine.fold import ONE, DimVec, Tables
@@ -407,6 +407,15 @@ def check(repo: Repo) -> Result:
     for tn, (cname, dims) in sorted(classes.items()):
         fn = mod.func(f"{cname}._convert")
         res.fn(fn)
+        # the in-place form writes into the *caller's* array and relabels it afterwards: out=self._get_out(x) must
+        # name that object.  If the data parameter is re-bound (x = self._convert(x, ...), x = np.sqrt(x, ...)) the
+        # later calls put their numbers into the shared buffer but the returned, relabelled object is a temporary
+        # wrapper - the caller's array keeps numbers and unit of different steps.
+        xp = fn.params[1]
+        rebinds = [n for n in walk_no_nested(fn.node) if (isinstance(n, ast.Assign) and any(isinstance(t_, ast.Name) and t_.id == xp for tg in n.targets for t_ in ast.walk(tg))) or (isinstance(n, (ast.AugAssign, ast.AnnAssign)) and isinstance(n.target, ast.Name) and n.target.id == xp) or (isinstance(n, ast.NamedExpr) and n.target.id == xp)]
+        if rebinds:
+            res.bad(f"{tn}:data-parameter-rebound", fn.where(rebinds[0]), f"{cname}._convert re-binds its data parameter `{xp}`: the following NumPy calls thread out=self._get_out({xp}) into the new object, so in the in-place form the caller's array receives the numbers of the last step while its unit is set on a temporary wrapper (convert_to_equivalent leaves a corrupted array)", f"`{xp}` keeps denoting the caller's array", norm(rebinds[0])[:80], rid=r4)
+            continue
         sp = SPEC.EQUIVALENCES.get(tn)
         spec_names = {}
         if sp:
@@ -645,4 +654,5 @@ MUTANTS = [
     Mutant("twin-rename-local", EQ, "SoundSpeedEquivalence._convert", "kT", "k_T", (), count=2, benign=True),
     Mutant("twin-commute", EQ, "ThermalEquivalence._convert", "np.multiply(x, pc.kboltz", "np.multiply(pc.kboltz, x", (), benign=True),
     Mutant("twin-alias-const", EQ, "ThermalEquivalence._convert", "pc.kboltz", "pc.boltzmann_constant", (), count=2, benign=True),
+    Mutant("data-parameter-rebound", EQ, "SoundSpeedEquivalence._convert", "                v2 = np.multiply(x, x, out=self._get_out(x))\n                kT = np.multiply(v2, mu * pc.mh / gamma, out=self._get_out(x))\n                return np.true_divide(kT, pc.kboltz, out=self._get_out(x))", "                x = np.multiply(x, x, out=self._get_out(x))\n                kT = np.multiply(x, mu * pc.mh / gamma, out=self._get_out(x))\n                return np.true_divide(kT, pc.kboltz, out=self._get_out(x))", ("C09-R4",)),
 ]
